@@ -42,9 +42,11 @@ func genNitro(variant string, seed uint64, tier string) *Plan {
 	p := &Plan{Scenario: variant, Seed: seed, Knobs: map[string]int{}}
 	k := p.Knobs
 	k["mm"] = r.Intn(2)
-	k["protect"] = 1
-	if r.Bool(0.2) {
-		k["protect"] = 0
+	// guard allocator mode: mprotect (every block on its own pages, faults on
+	// any access after free) is expensive in this VM; most runs use poison-only
+	k["protect"] = 0
+	if r.Bool(0.15) {
+		k["protect"] = 1
 	}
 	k["kv"] = r.Intn(2)
 	k["cmpimpl"] = r.Intn(2)
